@@ -19,6 +19,7 @@ import (
 	"sort"
 	"strings"
 	"sync"
+	"sync/atomic"
 	"time"
 
 	"github.com/olric-data/olric/internal/cluster/partitions"
@@ -71,6 +72,7 @@ type c03World struct {
 	fullAtWrite map[string]bool
 	slot        string
 	valLen      int
+	noReaders   bool
 }
 
 func (w *c03World) violate(clause, detail string, extra map[string]interface{}) {
@@ -352,10 +354,72 @@ func (w *c03World) misplacedDetail() string {
 }
 
 func (w *c03World) balancePass() {
+	// readers run next to the table moves: nothing writes during a pass, so every key of the model must be found,
+	// with its value, at every instant - wherever its table is at that moment
+	keys := make([]string, 0, len(w.model))
+	for k := range w.model {
+		keys = append(keys, k)
+	}
+	sort.Strings(keys)
+	stop := make(chan struct{})
+	var rwg sync.WaitGroup
+	type miss struct{ key, got, via string }
+	var mu sync.Mutex
+	var first *miss
+	var reads int64
+	live := w.c.Live()
+	if !w.noReaders && len(keys) > 0 {
+		for r := 0; r < 3; r++ {
+			rwg.Add(1)
+			go func(r int) {
+				defer rwg.Done()
+				router := paths.NewRouter(w.c, w.dmap)
+				defer router.Close()
+				sess := router.NewSession()
+				defer sess.Close()
+				for i := r; ; i += 3 {
+					select {
+					case <-stop:
+						return
+					default:
+					}
+					k := keys[i%len(keys)]
+					m := live[(i/3+r)%len(live)]
+					g, err := sess.ViaMember("E", m).Get(context.Background(), k)
+					atomic.AddInt64(&reads, 1)
+					got := ""
+					if err == nil {
+						got = c03Strip(g.Value)
+					} else if paths.Class(err) != "key not found" {
+						continue // transport trouble is not judged here
+					}
+					if got != w.model[k] {
+						mu.Lock()
+						if first == nil {
+							first = &miss{k, got, m.Name}
+						}
+						mu.Unlock()
+						return
+					}
+				}
+			}(r)
+		}
+	}
 	for _, m := range w.c.Live() {
 		m.V.Balancer.BalanceEagerly()
 	}
+	close(stop)
+	rwg.Wait()
 	w.ctx.rep.Count("balancer_passes", 1)
+	w.ctx.rep.Count("reads_concurrent_with_table_moves", reads)
+	if first != nil && !w.failed {
+		clause := "stale"
+		if first.got == "" {
+			clause = "lost"
+		}
+		w.slot = "during-table-move"
+		w.violate(clause+"|slot=during-table-move|concurrent-read", fmt.Sprintf("while the balancer was moving tables (no write in progress) Get(%s) on %s returned %q, want %q :: %s", first.key, first.via, first.got, w.model[first.key], whereIs(w.c, w.dmap, first.key)), map[string]interface{}{"key": first.key})
+	}
 }
 
 // handOver drives the balancer pass by pass with operations in between, then prunes.
@@ -496,7 +560,7 @@ func (w *c03World) scanCheck() {
 
 func c03Child(ctx *runCtx, spec string) {
 	cs := parseC03(spec)
-	c, err := cluster.Start(cluster.Config{Replicas: cs.R, Partitions: cs.P, TableSize: cs.TS, FastFailureDetection: cs.Crash != "" || strings.Contains(cs.Steps, "leave")}, cs.N0)
+	c, err := cluster.Start(cluster.Config{Replicas: cs.R, Partitions: cs.P, TableSize: cs.TS, FastFailureDetection: cs.Crash != "" || strings.Contains(cs.Steps, "leave") || strings.Contains(cs.Steps, "crash")}, cs.N0)
 	if err != nil {
 		ctx.rep.Inconclusive(spec + ": cluster start: " + err.Error())
 		return
@@ -568,6 +632,71 @@ func c03Child(ctx *runCtx, spec string) {
 			if !lossSoFar {
 				w.census(false)
 			}
+		case "join-busy":
+			// one join; after the first balancer pass the previous owners (which still hold most of the data) fail to
+			// answer the coordinator's LengthOfPart request while it recomputes and pushes the routing table
+			if _, err := c.AddMember(); err != nil {
+				ctx.rep.Inconclusive(spec + ": join: " + err.Error())
+				return
+			}
+			if err := c.WaitStable(30 * time.Second); err != nil {
+				ctx.rep.Inconclusive(spec + ": " + err.Error())
+				return
+			}
+			ctx.rep.Count("joins", 1)
+			w.slotOps(sess, "after-push-before-move#"+tag)
+			w.balancePass()
+			for _, m := range c.Live() {
+				verifhook.SetFail(m.Name, "rt.length-of-part", true)
+			}
+			c.PushRouting()
+			for _, m := range c.Live() {
+				verifhook.SetFail(m.Name, "rt.length-of-part", false)
+			}
+			var failed uint64
+			for k, v := range verifhook.Counts() {
+				if strings.HasSuffix(k, "rt.length-of-part#failed") {
+					failed += v
+				}
+			}
+			ctx.rep.Count("length_of_part_requests_failed_during_a_push", int64(failed))
+			w.slotOps(sess, "after-push-with-unanswered-length-requests#"+tag)
+			w.handOver(sess, tag)
+			if !lossSoFar {
+				w.census(false)
+			}
+		case "join-early-leave", "join-early-crash":
+			// the member that has just joined goes away again while the hand-over to it is still in progress: it has
+			// received some tables and the writes of the last slots, the previous owners still hold the rest
+			if cs.R < 2 {
+				ctx.rep.Inconclusive(spec + ": needs R>=2")
+				return
+			}
+			joined, err := c.AddMember()
+			if err != nil {
+				ctx.rep.Inconclusive(spec + ": join: " + err.Error())
+				return
+			}
+			if err := c.WaitStable(30 * time.Second); err != nil {
+				ctx.rep.Inconclusive(spec + ": " + err.Error())
+				return
+			}
+			ctx.rep.Count("joins", 1)
+			w.slotOps(sess, "after-push-before-move#"+tag)
+			w.balancePass()
+			w.slotOps(sess, "between-table-moves#"+tag+"/0")
+			lossSoFar = true
+			if st == "join-early-leave" {
+				c.StopGraceful(joined)
+			} else {
+				c.StopAbrupt(joined)
+			}
+			if err := c.WaitStable(60 * time.Second); err != nil {
+				ctx.rep.Inconclusive(spec + ": " + err.Error())
+				return
+			}
+			ctx.rep.Count("members_gone_in_the_middle_of_the_hand-over_to_them", 1)
+			w.handOver(sess, tag+"-gone")
 		case "join2":
 			// two joins in quick succession: the second member joins while the hand-over to the first one has only
 			// begun, so that partitions get a chain of two previous owners that both hold data
@@ -740,8 +869,11 @@ func c03CrashJoin(w *c03World, sess *paths.Session, cs c03Case, tag string) {
 		return
 	}
 	w.slotOps(sess, "after-push-before-move#"+tag)
-	// one clean pass first so that the crash happens in the middle of the hand-over
-	w.balancePass()
+	// one clean pass first so that the crash happens in the middle of the hand-over (with one table per fragment the
+	// first pass is the whole hand-over)
+	if cs.TS < 1<<20 {
+		w.balancePass()
+	}
 	var once sync.Once
 	fired := make(chan *cluster.Member, 1)
 	skip := 2 + w.rng.Intn(4)
@@ -832,7 +964,11 @@ func c03Cases(tier string, seed int64) []c03Case {
 		add(c03Case{N0: 3, Steps: "join", R: 3, TS: 512, P: 13})
 		add(c03Case{N0: 1, Steps: "join2", R: 1, TS: 512, P: 23})
 		add(c03Case{N0: 2, Steps: "join2", R: 2, TS: 512, P: 23})
+		add(c03Case{N0: 2, Steps: "join-early-leave", R: 2, TS: 512, P: 13})
+		add(c03Case{N0: 3, Steps: "join-early-crash", R: 2, TS: 512, P: 13})
 		add(c03Case{N0: 1, Steps: "join-janitor", R: 1, TS: 512})
+		add(c03Case{N0: 2, Steps: "join-busy", R: 1, TS: 512, P: 13})
+		add(c03Case{N0: 2, Steps: "join-busy", R: 2, TS: 512, P: 13})
 		add(c03Case{N0: 2, Steps: "join-janitor", R: 2, TS: 512})
 		add(c03Case{N0: 2, Steps: "join", R: 2, TS: 512, Crash: "sender:move.after-send"})
 		add(c03Case{N0: 2, Steps: "join", R: 2, TS: 512, Crash: "sender:move.before-drop"})
@@ -845,6 +981,13 @@ func c03Cases(tier string, seed int64) []c03Case {
 			add(c03Case{N0: 2, Steps: "join,join", R: r, TS: ts})
 			add(c03Case{N0: 3, Steps: "join", R: r, TS: ts, P: 23})
 			add(c03Case{N0: 1, Steps: "join2", R: r, TS: ts, P: 23})
+			add(c03Case{N0: 2, Steps: "join-busy,join-busy", R: r, TS: ts, P: 13})
+			if r == 2 {
+				add(c03Case{N0: 2, Steps: "join-early-leave", R: r, TS: ts, P: 13})
+				add(c03Case{N0: 3, Steps: "join-early-leave,join", R: r, TS: ts, P: 23})
+				add(c03Case{N0: 2, Steps: "join-early-crash", R: r, TS: ts, P: 13})
+				add(c03Case{N0: 3, Steps: "join,join-early-crash", R: r, TS: ts, P: 23})
+			}
 			add(c03Case{N0: 1, Steps: "join-janitor,join-janitor", R: r, TS: ts})
 			add(c03Case{N0: 3, Steps: "join-janitor", R: r, TS: ts, P: 13})
 			add(c03Case{N0: 2, Steps: "join2,join", R: r, TS: ts, P: 31})
